@@ -134,6 +134,8 @@ def main():
         fails = []
         d = tempfile.mkdtemp(prefix="c11_")
         for case in range(max(n * 4, 24)):
+            if fails:
+                break  # one confirmed hang is the verdict; every further one would cost another 65 s
             k = rng.randint(1, 5)
             parents = [rng.choice(G[:k] + [NULLG]) for _ in range(k)]
             shots = "".join(f"<Shot><GUID>{G[i]}</GUID><ParentGUID>{parents[i]}</ParentGUID></Shot>" for i in range(k))
@@ -158,6 +160,8 @@ def main():
                 signal.setitimer(signal.ITIMER_REAL, 0)
         # storages with holes, overlaps, empty and reversed ranges: open and read across every boundary
         for case in range(max(n * 6, 30)):
+            if fails:
+                break
             k = rng.randint(1, 4)
             ranges = []
             for _ in range(k):
@@ -207,7 +211,7 @@ def main():
     t0 = time.time()
     for desc, data, regions, opener in bases:
         for mdesc, mdata in mutations(data, regions, rng):
-            if time.time() - t0 > budget:
+            if time.time() - t0 > budget or any(f["kind"] == "timeout" for f in fails):
                 break
             evals += 1
             distinct += 1
